@@ -10,12 +10,14 @@ import ecc_file_x as fx
 import ecc_scen as es
 import ecc_util as eu
 
-LEAN_MODULES = ["Pff.Props.C04", "Pff.Props.RunB"]
+LEAN_MODULES = ["Pff.Props.C04", "Pff.Props.RunB", "Pff.Props.C02"]
 PROP_MODULE = "Pff.Props.C04"
 THEOREMS = ["Pff.Ecc.C04_truncated_ecc_needs_hash", "Pff.Ecc.C04_block", "Pff.Ecc.C04_intact_untouched", "Pff.Ecc.C04_failed_copied", "Pff.Ecc.C04_length_header",
             "Pff.Ecc.C04_length_whole", "Pff.Ecc.C04_blockwise_header", "Pff.Ecc.C04_blockwise_whole", "Pff.Ecc.C04_failed_not_complete",
             "Pff.Ecc.C04_exit", "Pff.Ecc.C04_results_wf",
-            "Pff.Run.C13_run_output_length"]
+            "Pff.Run.C13_run_output_length",
+            "Pff.RSSpec.C02_decode_within_radius",
+            "Pff.RSSpec.C02_decode_full_block_within_radius"]
 MODELLED = [("pyFileFixity/header_ecc.py", "main"), ("pyFileFixity/header_ecc.py", "entry_assemble"),
             ("pyFileFixity/structural_adaptive_ecc.py", "main"), ("pyFileFixity/structural_adaptive_ecc.py", "stream_entry_assemble")]
 TRUSTED_BASE = [
@@ -141,7 +143,7 @@ def it_directed(i):
     return i % 5 == 3
 
 
-def gen_scenario(rng, tier):
+def gen_scenario(rng, tier, erasure_edge=False):
     P = es.gen_params(rng, small=True)
     P.mbs = max(P.mbs, 5)
     if not P.well_formed():
@@ -149,6 +151,16 @@ def gen_scenario(rng, tier):
     if P.algo in (1, 2) and P.mbs > 60 and rng.random() < 0.7:
         P.algo = rng.choice([3, 4])       # keep the slow pure-python decoders to small blocks mostly
     P.no_fast_check = rng.random() < 0.3
+    if erasure_edge or rng.random() < 0.2:
+        P.erasures, P.only_erasures, P.erasure_symbol = True, False, 0
+    elif rng.random() < 0.1:
+        P.erasures, P.only_erasures = False, True       # --only_erasures alone
+    if erasure_edge:
+        P.algo = rng.choice([4, 4, 1, 2, 3])
+        if P.algo in (1, 2):
+            P.mbs = min(P.mbs, 60)
+        if not P.well_formed():
+            P = eu.Params(tool=P.tool, algo=P.algo, hash=P.hash, erasures=True)
     k1 = P.k_of_rate(P.r1)
     size = rng.choice([0, 1, k1, 3 * k1 + 1, P.size, P.size + 5, rng.randint(0, 900), 14 * k1 + 3 if P.mbs <= 50 else 700])
     size = min(size, 1500)
@@ -158,13 +170,13 @@ def gen_scenario(rng, tier):
 
 def run(oc, tier, seed, model_available, escalate):
     rng = random.Random(seed * 553105243 + 4)
-    n = 100 if tier == "quick" else 2500
+    n = 140 if tier == "quick" else 3000
     if escalate:
         n *= 2
     d = os.path.join(common.scratch(), "c04")
     lines, impl = [], []
     for i in range(n):
-        P, content0 = gen_scenario(rng, tier)
+        P, content0 = gen_scenario(rng, tier, erasure_edge=(i % 5 == 1 or i % 10 == 4))
         name = rng.choice(["f.bin", "sub/g.dat"])
         root = os.path.join(d, "gen")
         import shutil
@@ -206,11 +218,33 @@ def run(oc, tier, seed, model_available, escalate):
             c_ = bytearray(content0)
             c_[off2 + rng.randrange(ln2)] ^= 0x5A
             content1 = bytes(c_)
+        elif (i % 5 == 1 or i % 10 == 4) and len(tl) >= 1 and P.erasures and not P.only_erasures:
+            # directed class: one block JUST BEYOND the erasure capacity - parity symbols zeroed (= erasure symbol 0) so that
+            # 2*errors + erasures = n-k+1 or n-k+2 with one or two wrong message symbols. A decoder handed that many erasures has (almost) no
+            # redundancy left and returns some other valid codeword: the tool must not commit it (unless the hash vouches for it).
+            fk, tk = "one-or-two-errors", "erasures_beyond_bound"
+            j = rng.randrange(len(tl))
+            (off, ln, k), ho, po, pl = tl[j]
+            c_ = bytearray(content0)
+            t_ = bytearray(track)
+            if ln >= 2 and pl >= 3:
+                ne = rng.choice([1, 1, 2])
+                wrong = rng.sample(range(ln), min(ne, ln))
+                for pos in wrong:
+                    c_[off + pos] = rng.choice([x for x in range(1, 256) if x != c_[off + pos]])
+                nat = sum(1 for x in c_[off:off + ln] if x == P.erasure_symbol) + sum(1 for x in t_[po:po + pl] if x == P.erasure_symbol)
+                want_f = pl + rng.choice([1, 1, 1, 2]) - 2 * len(wrong)
+                cand = [q for q in range(po, po + pl) if t_[q] != P.erasure_symbol]
+                for q in rng.sample(cand, max(0, min(len(cand), want_f - nat))):
+                    t_[q] = P.erasure_symbol
+                if rng.random() < 0.5:
+                    t_[ho] ^= 0x21          # the stored hash damaged as well: nothing vouches for a repair
+            content1, track = bytes(c_), bytes(t_)
         elif tk == "truncate":
             track = track[:rng.randint(0, len(track))]
         else:
             track = bytes(damage_bytes(rng, track, tk))
-        sizechg = rng.choice(["no", "no", "no", "grow", "shrink"])
+        sizechg = rng.choice(["no", "no", "no", "grow", "shrink"]) if tk not in ("erasures_beyond_bound", "parity_swap") else "no"
         if sizechg == "grow":
             content1 += bytes(rng.randrange(256) for _ in range(rng.choice([1, 20, 300])))
         elif sizechg == "shrink" and content1:
